@@ -21,7 +21,7 @@ MANIFEST = dict(
          "one step + 1e-9. Exact read-back through CPython's real floats is NOT a theorem: it is closed by enumerating all 65 536 words "
          "x 2 units on the real accessor on every run (both write paths). Tie: translator + differential correspondence on the real "
          "GeckoTempStructAccessor (floats converted to exact Fractions, model rationals compared as num/den) and the real "
-         "GeckoWaterHeater on stub spas of shipped cfg/log pairs. Session 4: heater states keep the user setpoint (SetpointG) on the other side of the current temperature than the regulated target (RealSetPointG), so a heater reading the wrong word shows in real_target_temperature and in the operation ladder. The unit setting flips while every stored word stays unchanged, on the same live heater. Session 5: one heater object living across a history of writes and reports against a spa that applies each command and reports the word back (the same temperature again, a value truncating to the held word, a unit change right after it, writes in the other unit): after every step the heater presents the stored word in the current unit.",
+         "GeckoWaterHeater on stub spas of shipped cfg/log pairs. Session 4: heater states keep the user setpoint (SetpointG) on the other side of the current temperature than the regulated target (RealSetPointG), so a heater reading the wrong word shows in real_target_temperature and in the operation ladder. The unit setting flips while every stored word stays unchanged, on the same live heater. Session 5: one heater object living across a history of writes and reports against a spa that applies each command and reports the word back (the same temperature again, a value truncating to the held word, a unit change right after it, writes in the other unit): after every step the heater presents the stored word in the current unit. Round 14: the set point through the real client path with the spa's report held back (change of mind).",
     note="Trusted: Lean kernel; the translator (harness/gen_c14.py over py2lean; float literal -> exact value of the double, float op -> "
          "fl(...)); the correspondence harness. Assumed in float_bridge only: rounding is monotone with relative error <= 2^-52 in the "
          "range used (no underflow/overflow). int -> double conversion of a stored word is exact (< 2^53). A flag that exists but is off "
@@ -670,6 +670,15 @@ def run(ctx):
         ctx.log(f"enumeration of 131072 word/unit round trips on the real accessor: {fails} failures")
         check_decimals(ctx, rep, tag, lines, expect, nontrivial)
         ctx.log(f"decimal writes: {len(lines) - 131072}")
+    # ---- 1b. the set point through the REAL client path against a spa whose report of a change is late: write T1, then T0 (what the
+    #          client still shows) before the report of T1 has arrived - the last temperature written is what the spa holds and what reads back
+    try:
+        from props import c13
+        from common import REPO as _REPO
+        for sn_ in ("default.snapshot", "inYT-Pump1Hi-2020-12-13 11_19_35.snapshot"):
+            c13.pending_report_scenarios(ctx, str(_REPO / "tests" / "snapshots" / sn_), "real-path", with_shared_word=False)
+    except Exception as e:  # noqa
+        viol(ctx, f"real-path:raised:{type(e).__name__}", {"kind": "pending-report", "snapshot": "default.snapshot"}, "the scenario runs", f"{type(e).__name__}: {e}")
     # ---- 2. heater on shipped pairs (+ the flag-presence variants on a pack that has both flags)
     mods = packs.load_tables()
     prs = pairs_for(ctx, mods)
@@ -761,6 +770,12 @@ def replay(inp):
         a, _ = impl_write(spa, tag, ub, eval(inp["a"]))
         b, _ = impl_write(spa, tag, ub, eval(inp["b"]))
         return not (isinstance(a, int) and isinstance(b, int) and a <= b), [a, b]
+    if k == "pending-report":
+        from props import c13
+        from common import Ctx, REPO as _REPO
+        c = Ctx("C14", "quick", 0)
+        c13.pending_report_scenarios(c, str(_REPO / "tests" / "snapshots" / inp["snapshot"]), "real-path", with_shared_word=False)
+        return bool(c.violations), c.violations[0]["observed"] if c.violations else "the last temperature written is held and read back"
     if k == "live-heater":
         from geckolib.automation.heater import GeckoWaterHeater
         from common import Ctx
